@@ -114,7 +114,7 @@ func genUntrusted(tier string, seed uint64) {
 	}
 	n := 6000
 	if tier == "thorough" {
-		n = 300000
+		n = 1000000
 	}
 	for i := 0; i < n; i++ {
 		switch r.intn(6) {
